@@ -72,7 +72,7 @@ TREE_CONFIGS = {
         tree_cfg("shapes", 6, 3, 5, ["Rotate"], need=NOSEL),
         tree_cfg("shapes-wide", 5, 4, 4, ["CropBox"], need=NOSEL),
         tree_cfg("two-attrs", 5, 3, 4, ["MediaBox", "Resources"], need=NOSEL),
-        tree_cfg("two-attrs-b", 4, 3, 4, ["Rotate", "CropBox"], need=NOSEL),
+        tree_cfg("two-attrs-b", 4, 3, 3, ["Rotate", "CropBox"], need=NOSEL),
         tree_cfg("four-attrs", 3, 2, 2, RT.INHERITABLE, root='{"Pages"}', need=NOSEL),
         tree_cfg("catalog", 4, 2, 3, ["Rotate", "MediaBox"], cat=["Rotate", "MediaBox"], root='{"Pages", "Page"}', need=NOSEL),
         tree_cfg("select-flat", 8, 7, 7, [], root='{"Pages"}', kinds='{"Page"}', back=False, pn="<- PN_Sub6",
@@ -81,7 +81,7 @@ TREE_CONFIGS = {
     ],
 }
 COVERAGE_ON = ("shapes", "catalog", "select-flat", "select-tree", "three-attrs-chain")   # quick tier: vacuity guard
-SIMULATE = dict(N=6, K=4, E=8, attrs=RT.INHERITABLE, cat=RT.INHERITABLE, num=4000, depth=80)
+SIMULATE = dict(N=6, K=4, E=8, attrs=RT.INHERITABLE, cat=RT.INHERITABLE, num=1000, depth=70)
 
 logging.disable(logging.CRITICAL)      # pdfminer warns about every defaulted MediaBox
 
@@ -130,6 +130,27 @@ def guarded(site, fn, findings, detail):
 
 def scaled(seq, k=RT.SCALE):
     return tuple(float(k * v) for v in seq)
+
+
+MAX_FILED = 150
+
+
+def report(ck, key, what, replay):
+    """ck.violation, but after MAX_FILED unknown violations the rest are only counted (a broken tree fails tens of
+    thousands of replayed cases; one replay file each would fill the disk)"""
+    if not ck.is_known(key) and len(ck.violations) >= MAX_FILED:
+        ck.extra["violations_counted_but_not_filed"] = ck.extra.get("violations_counted_but_not_filed", 0) + 1
+        return True
+    return ck.violation(key, what, replay)
+
+
+def known_keys(pid):
+    import json as _json
+    p = os.path.join(os.path.dirname(os.path.dirname(os.path.dirname(os.path.abspath(__file__)))), "known_findings", pid + ".json")
+    try:
+        return {e["key"] for e in _json.load(open(p)) if e.get("status") == "known"}
+    except OSError:
+        return set()
 
 
 def proper_subsets(dev):
@@ -560,7 +581,7 @@ def replay_geometry(ck, grecs):
         for lo, hi, variant, findings, d, n in p.imap_unordered(_geom_chunk, tasks):
             drift += d
             for key, what in findings:
-                ck.violation(key, what, {"kind": "geom", "recs": grecs[lo:hi], "variant": variant})
+                report(ck, key, what, {"kind": "geom", "recs": grecs[lo:hi], "variant": variant})
             for r in grecs[lo:hi]:
                 ck.case(1, ("G", tuple(r["boxw"]), r["rraw"]) if (r["rraw"] % 360 != 0 or r["boxw"][0] != 0 or r["boxw"][1] != 0) else None)
             ck.replayed += n
@@ -589,8 +610,8 @@ def replay_trees(ck, conf, recs, geom, both_variants):
                         if ck.extra["walk_mutates_document"] == 1:
                             ck.note("create_pages changed the document's own objects (model: the document is read-only): " + what)
                         continue
-                    ck.violation(key, what, {"kind": "tree", "rec": recs[i], "attrs": list(conf["attrs"]), "variant": v,
-                                             "shift": (ck.seed + i) % 7, "config": conf["name"]})
+                    report(ck, key, what, {"kind": "tree", "rec": recs[i], "attrs": list(conf["attrs"]), "variant": v,
+                                           "shift": (ck.seed + i) % 7, "config": conf["name"]})
                 ck.case(1, ("T", conf["name"], i) if nontrivial else None)
                 ck.replayed += 1
                 if sample is not None and not [f for f in findings if f[0] != "walk-mutates-document"]:
@@ -943,7 +964,8 @@ def replay(path):
         shutil.rmtree(tmp, ignore_errors=True)
     for key, what in bad:
         print("  key=%s  %s" % (key, what))
-    bad = [b for b in bad if b[0] == doc["key"]] or bad
+    known = known_keys("C04")
+    bad = [b for b in bad if b[0] == doc["key"] or b[0] not in known]
     if bad:
         print("VIOLATION property=C04 replay=%s" % path)
     return 1 if bad else 0
